@@ -45,6 +45,10 @@ func (i *Ignore) load(rootGoitPath string) error {
 	scanner := bufio.NewScanner(f)
 	for scanner.Scan() {
 		text := scanner.Text()
+		// a blank line is not an entry (as a pattern it would match every path)
+		if text == "" {
+			continue
+		}
 		var replacedText string
 		// names are literal text ('+', '(', '.' ... have no regexp meaning); only '*' is a wildcard
 		if directoryRegexp.MatchString(text) {
